@@ -556,7 +556,8 @@ def run_ids(incoming):
     """canonical view of one incoming-queue item / on_distributed_update call"""
     if isinstance(incoming, dict):
         incoming = (incoming.get("completed"), incoming.get("halted"), incoming.get("updated"))
-    return [[r.run_id for r in part] for part in incoming]
+    # (an entry that is not a run record - None, a number - is shown by its type: the caller's oracle decides)
+    return [[getattr(r, "run_id", "<%s>" % type(r).__name__) for r in part] for part in incoming]
 
 
 def streaming_junk_probe(trecv, nrecv, chunk, dt, payload=None):
